@@ -29,7 +29,7 @@ if __name__ == "__main__":
             contract.setdefault(q, []).append(name)
     repo = Repo()
     scope = sorted(f.qualname for f in in_scope_functions(repo))
-    rep = {"executed": {}, "contract_only": {}, "untouched": []}
+    rep = {"executed": {}, "contract_only": {}, "untouched": [], "units_executing": {q: sorted(v) for q, v in executed.items()}}
     for q in scope:
         if q in executed:
             rep["executed"][q] = len(executed[q])
